@@ -158,3 +158,41 @@ func VerifH_C16_rowBufferInputs() {
 	vAssert(vBytesEq(rows[0][0].byteArray(), orig), "the caller's row is unchanged by Reset and later writes")
 	vCover("written")
 }
+
+// C16.K4c: FilterRowWriter hands the accepted rows to the underlying writer and
+// leaves the caller's rows as they were.
+type verifCopyingRowWriter struct{ got []Row }
+
+func (w *verifCopyingRowWriter) WriteRows(rows []Row) (int, error) {
+	for _, r := range rows {
+		w.got = append(w.got, r.Clone())
+	}
+	return len(rows), nil
+}
+
+func VerifH_C16_filterWriterKeepsInput() {
+	vUnwind(256)
+	n := vChoose("rows", 1, 3)
+	rows := make([]Row, n)
+	keep := make([]bool, n)
+	want := make([]int64, n)
+	for i := range rows {
+		want[i] = vI64("v")
+		rows[i] = Row{makeValueInt64(want[i]).Level(0, 0, 0), makeValueInt32(int32(i)).Level(0, 0, 1)}
+		keep[i] = vChoose("accepted", 0, 1) == 1
+	}
+	sink := &verifCopyingRowWriter{}
+	fw := FilterRowWriter(sink, func(r Row) bool { return keep[r[1].Int32()] })
+	k, err := fw.WriteRows(rows)
+	vAssert(err == nil && k == n, "all rows are consumed")
+	j := 0
+	for i := range rows {
+		vAssert(len(rows[i]) == 2 && rows[i][0].Kind() == Int64 && rows[i][0].Int64() == want[i] && rows[i][1].Int32() == int32(i), "the caller's rows are not modified by the filter writer")
+		if keep[i] {
+			vAssert(j < len(sink.got) && sink.got[j][0].Int64() == want[i], "accepted rows reach the underlying writer in order")
+			j++
+		}
+	}
+	vAssert(j == len(sink.got), "rejected rows do not reach the underlying writer")
+	vCover("filtered")
+}
